@@ -291,13 +291,6 @@ func (c *Ctx) runBisectionPolarity(prefix string) {
 			}
 			c.analysed(qname(fn))
 			key := pkg + ".SolidSurfaceEstimator." + name
-			var pre *ssa.Call
-			var yes *ssa.BasicBlock
-			for _, b := range fn.Blocks {
-				if call, y, _ := containsEdges(b); call != nil {
-					pre, yes = call, y
-				}
-			}
 			var callee *ssa.Call
 			for _, b := range fn.Blocks {
 				for _, ins := range b.Instrs {
@@ -308,25 +301,22 @@ func (c *Ctx) runBisectionPolarity(prefix string) {
 					}
 				}
 			}
-			if pre == nil || callee == nil || len(callee.Call.Args) < 3 || len(pre.Call.Args) < 1 {
-				c.problem("%s: pre-validation or bisection call not found", key)
+			if callee == nil || len(callee.Call.Args) < 3 {
+				c.problem("%s: bisection call not found", key)
 				continue
 			}
-			tested := pre.Call.Args[len(pre.Call.Args)-1]
 			insideArg := callee.Call.Args[2] // p2: the end reached as the parameter goes to max
-			phi, isPhi := insideArg.(*ssa.Phi)
-			okPre := false
-			if isPhi {
-				for i, p := range phi.Block().Preds {
-					if p == yes || yes.Dominates(p) {
-						okPre = phi.Edges[i] == tested
-					}
-				}
+			// the pre-test may sit in this function (a phi selects the swapped
+			// ends) or in a helper that returns the ordered pair
+			prePos, okPre, found := swappedByPreTest(fn, insideArg)
+			if !found {
+				c.problem("%s: pre-validation not found", key)
+				continue
 			}
 			if okPre {
-				c.ok(prefix+".PRE", key+" swap", pre.Pos(), "when the first endpoint is contained it is passed as the end the bisection treats as inside")
+				c.ok(prefix+".PRE", key+" swap", prePos, "when the first endpoint is contained it is passed as the end the bisection treats as inside")
 			} else {
-				c.bad(prefix+".PRE", key+" swap", pre.Pos(), "the endpoint found contained by the pre-test is not the one passed as the inside end: the bisection converges to the wrong side")
+				c.bad(prefix+".PRE", key+" swap", prePos, "the endpoint found contained by the pre-test is not the one passed as the inside end: the bisection converges to the wrong side")
 			}
 			if name == "BisectInterior" {
 				sel := true
@@ -347,6 +337,84 @@ func (c *Ctx) runBisectionPolarity(prefix string) {
 			}
 		}
 	}
+}
+
+// swappedByPreTest: v (the end handed to the bisection as the inside end) is,
+// on the path where a Contains pre-test succeeded, the point that was tested.
+// The selection is a phi in fn, or result #k of a helper that contains the
+// pre-test and returns the ordered pair.
+func swappedByPreTest(fn *ssa.Function, v ssa.Value) (pos token.Pos, ok, found bool) {
+	selected := func(in *ssa.Function, sel ssa.Value) (token.Pos, bool, bool) {
+		var pre *ssa.Call
+		var yes *ssa.BasicBlock
+		for _, b := range in.Blocks {
+			if call, y, _ := containsEdges(b); call != nil {
+				pre, yes = call, y
+			}
+		}
+		if pre == nil || len(pre.Call.Args) < 1 {
+			return token.NoPos, false, false
+		}
+		tested := pre.Call.Args[len(pre.Call.Args)-1]
+		if phi, isPhi := sel.(*ssa.Phi); isPhi {
+			for i, p := range phi.Block().Preds {
+				if p == yes || yes.Dominates(p) || (p == pre.Block() && phi.Block() == yes) {
+					return pre.Pos(), phi.Edges[i] == tested, true
+				}
+			}
+			return pre.Pos(), false, true
+		}
+		return pre.Pos(), false, true
+	}
+	if ex, isEx := v.(*ssa.Extract); isEx {
+		call, isCall := ex.Tuple.(*ssa.Call)
+		if !isCall {
+			return token.NoPos, false, false
+		}
+		h := call.Call.StaticCallee()
+		if h == nil || h.Blocks == nil {
+			return token.NoPos, false, false
+		}
+		var pre *ssa.Call
+		var yes *ssa.BasicBlock
+		for _, b := range h.Blocks {
+			if c2, y, _ := containsEdges(b); c2 != nil {
+				pre, yes = c2, y
+			}
+		}
+		if pre == nil || len(pre.Call.Args) < 1 {
+			return token.NoPos, false, false
+		}
+		tested := pre.Call.Args[len(pre.Call.Args)-1]
+		// the tested point must be the helper's parameter that receives the
+		// caller's first endpoint: any parameter will do, the caller's phi form
+		// makes the same assumption
+		okAll, any := true, false
+		for _, b := range h.Blocks {
+			ret, isRet := b.Instrs[len(b.Instrs)-1].(*ssa.Return)
+			if !isRet || ex.Index >= len(ret.Results) {
+				continue
+			}
+			r := ret.Results[ex.Index]
+			if b == yes || yes.Dominates(b) {
+				any = true
+				if r != tested {
+					okAll = false
+				}
+			} else if phi, isPhi := r.(*ssa.Phi); isPhi {
+				for i, p := range phi.Block().Preds {
+					if p == yes || yes.Dominates(p) || (p == pre.Block() && phi.Block() == yes) {
+						any = true
+						if phi.Edges[i] != tested {
+							okAll = false
+						}
+					}
+				}
+			}
+		}
+		return call.Pos(), okAll && any, true
+	}
+	return selected(fn, v)
 }
 
 // bpPreLoop: entry value of the inside end, on the path where the pre-loop
@@ -427,6 +495,26 @@ func (c *Ctx) runBisectionSameExpr(prefix string) {
 					return s + ")"
 				}
 			}
+			if call, ok := v.(*ssa.Call); ok {
+				// a helper of the package with one return: its expression over the
+				// canonical arguments
+				if f := call.Call.StaticCallee(); f != nil && f.Blocks != nil && len(f.Blocks) == 1 && c.isRepoPkg(f.Pkg.Pkg) && isCoordType(v.Type()) {
+					if ret, ok := f.Blocks[0].Instrs[len(f.Blocks[0].Instrs)-1].(*ssa.Return); ok && len(ret.Results) == 1 && len(f.Params) == len(call.Call.Args) {
+						saved := map[ssa.Value]string{}
+						for i, p := range f.Params {
+							saved[p] = rec(call.Call.Args[i], depth+1)
+						}
+						for p, n := range saved {
+							names[p] = n
+						}
+						res := rec(ret.Results[0], depth+1)
+						for p := range saved {
+							delete(names, p)
+						}
+						return res
+					}
+				}
+			}
 			if isFloat(v.Type()) {
 				return "t"
 			}
@@ -471,11 +559,25 @@ func (c *Ctx) runBisectionSameExpr(prefix string) {
 			}
 			names := map[ssa.Value]string{callee.Call.Args[1]: "P1", callee.Call.Args[2]: "P2"}
 			key := pkg + ".SolidSurfaceEstimator." + name + " reconstructs the tested point"
-			got := ""
+			// every return is the tested expression, or the contained endpoint
+			// itself (the "no interior sample" exit); at least one is the former
+			got, sawTested := "", false
 			for _, b := range fn.Blocks {
 				if ret, ok := b.Instrs[len(b.Instrs)-1].(*ssa.Return); ok && len(ret.Results) == 1 {
-					got = canon(ret.Results[0], names)
+					g := canon(ret.Results[0], names)
+					switch {
+					case g == tested:
+						sawTested = true
+					case g == "P2":
+					default:
+						got = g
+					}
 				}
+			}
+			if got == "" && sawTested {
+				got = tested
+			} else if got == "" {
+				got = "P2 on every path"
 			}
 			if got == tested {
 				c.ok(prefix+".SAME", key, fn.Pos(), "returns "+got+", the expression Contains was evaluated on")
